@@ -24,10 +24,14 @@ class ShorthandsAdapter:
 
         base_ns = {}
         sub_ns = {}
+        def broken(self, t):
+            return self.attribute_the_prototype_does_not_have      # AttributeError from INSIDE the init method
+
         for i in sorted(init['hasPrefixed']):
-            base_ns[prefix + 'Comp%d' % i] = (lambda s: lambda self, t: t(s))('prefix')
+            bad = i in init['failing']
+            base_ns[prefix + 'Comp%d' % i] = broken if bad else (lambda s: lambda self, t: t(s))('prefix')
             if i in init['overridden']:
-                sub_ns[prefix + 'Comp%d' % i] = (lambda s: lambda self, t: t(s))('override')
+                sub_ns[prefix + 'Comp%d' % i] = broken if bad else (lambda s: lambda self, t: t(s))('override')
         for i in sorted(init['hasDefaultPrefixed']):
             # a method under the default prefix must be ignored when a custom prefix is in force
             base_ns.setdefault('init_Comp%d' % i, (lambda s: lambda self, t: t(s))('WRONG-default-prefix'))
@@ -65,6 +69,8 @@ class ShorthandsAdapter:
 
     def expect(self, name, args, pre, post):
         prod = tuple(tuple(x) for x in post['produced'])
+        if prod and prod[0][1] == 'AttributeError':
+            return {'produced': 'EXC:AttributeError', 'fresh': False}
         # the base prototype class has the prefixed methods without the subclass overrides; the sibling has nothing
         base = tuple((t, 'prefix' if s == 'override' else s) for t, s in prod)
         sibling = tuple((t, 'default') for t, s in prod)
